@@ -36,7 +36,7 @@ KF_RSP_RETRY = "epr-recv-rsp-retry:no-clean-up-between-attempts"
 
 KF_RECV_BASIS = "recv-measure:post-processing-assumes-Z-basis"
 VARIANTS = ["recv_keep", "recv_keep_post", "recv_keep_seq", "recv_keep_with_info", "recv_rsp", "recv_rsp_with_info",
-            "create_keep", "create_keep_seq", "recv_keep_retry", "recv_keep_seq_retry", "create_keep_retry", "recv_rsp_retry"]
+            "create_keep", "create_keep_seq", "recv_keep_retry", "recv_keep_seq_retry", "create_keep_retry", "recv_rsp_retry", "recv_keep_seq1", "create_keep_seq1"]
 OTHER_STATES = [np.array([math.cos(0.4), math.sin(0.4) * np.exp(0.7j)]), np.array([math.cos(1.1), math.sin(1.1) * np.exp(-1.3j)])]
 PAULI_FOR_BELL = {0: [], 1: ["x"], 2: ["x", "z"], 3: ["z"]}   # correction turning |b> into Phi+ (applied to one half)
 
@@ -60,6 +60,8 @@ def cases(ctx):
                                 continue
                             if var == "recv_keep_post" and hw == "nv":
                                 continue  # post_routine is documented for sequential=True only; on NV the combination is not staged
+                            if var.endswith("_seq1") and n != 1:
+                                continue
                             if var.endswith("_retry") and (others > 0 and hw == "nv"):
                                 continue  # NV + retry + a qubit on ID 0: relocation inside the retry loop (C09's known finding)
                             skip = rng.random() < 0.5
@@ -119,6 +121,10 @@ def _request(es, var, n, expect, post):
         return es.recv_keep(n, expect_phi_plus=expect, min_fidelity_all_at_end=80, max_tries=3), None
     if var == "recv_keep_seq_retry":
         return es.recv_keep(n, post_routine=post, sequential=True, expect_phi_plus=expect, min_fidelity_all_at_end=80, max_tries=3), None
+    if var == "recv_keep_seq1":
+        return es.recv_keep(1, sequential=True, expect_phi_plus=expect), None      # one pair, sequential, no post routine: an ordinary handle
+    if var == "create_keep_seq1":
+        return es.create_keep(1, sequential=True), None
     if var == "recv_rsp_retry":
         return es.recv_rsp(n, expect_phi_plus=expect, min_fidelity_all_at_end=80, max_tries=3), None
     if var == "create_keep_retry":
@@ -137,7 +143,7 @@ def _keep(ctx, case):
     n = len(bells)
     role = "create" if var.startswith("create") else "recv"
     tp = "R" if "rsp" in var else "K"
-    sequential = "_seq" in var
+    sequential = "_seq" in var and not var.endswith("_seq1")
     retry = var.endswith("_retry")
     nontrivial = any(b != 0 for b in bells)
     budget = n + others + 1 if not sequential else others + 2
